@@ -7,13 +7,208 @@ package main
 import (
 	"fmt"
 	"math/rand"
+	"net"
 
 	"verif/harness/hv"
 
 	"github.com/bfenetworks/bfe/bfe_balance/backend"
+	"github.com/bfenetworks/bfe/bfe_balance/bal_gslb"
 	"github.com/bfenetworks/bfe/bfe_balance/bal_slb"
+	"github.com/bfenetworks/bfe/bfe_basic"
+	"github.com/bfenetworks/bfe/bfe_config/bfe_cluster_conf/cluster_conf"
 	"github.com/bfenetworks/bfe/bfe_config/bfe_cluster_conf/cluster_table_conf"
+	"github.com/bfenetworks/bfe/bfe_config/bfe_cluster_conf/gslb_conf"
+	"github.com/bfenetworks/bfe/bfe_http"
+	"github.com/spaolacci/murmur3"
 )
+
+func errCode(err error) int {
+	switch err {
+	case nil:
+		return 0
+	case bfe_basic.ErrBkNoSubCluster:
+		return 1
+	case bfe_basic.ErrGslbBlackhole:
+		return 2
+	case bfe_basic.ErrBkNoBackend:
+		return 3
+	case bfe_basic.ErrBkNoSubClusterCross:
+		return 4
+	case bfe_basic.ErrBkCrossRetryBalance:
+		return 5
+	case bfe_basic.ErrBkRetryTooMany:
+		return 6
+	}
+	return 99
+}
+
+// kind 8: [8 [mode rmax cross] subs ops] through BalanceGslb (encoding of RunC03.v)
+func implG(top hv.L) hv.Val {
+	pr := hv.AsList(top[1])
+	modeI, rmax, cross := int(hv.AsInt(pr[0])), int(hv.AsInt(pr[1])), int(hv.AsInt(pr[2]))
+	gc := gslb_conf.GslbClusterConf{}
+	backs := cluster_table_conf.ClusterBackend{}
+	for _, sv := range hv.AsList(top[2]) {
+		s := hv.AsList(sv)
+		name := hv.AsStr(s[0])
+		gc[name] = int(hv.AsInt(s[1]))
+		conf := cluster_table_conf.SubClusterBackend{}
+		for _, bv := range hv.AsList(s[2]) {
+			b := hv.AsList(bv)
+			id, w := int(hv.AsInt(b[0])), int(hv.AsInt(b[1]))
+			bn := fmt.Sprintf("%s-%d", name, id)
+			addr := "10.0.0.1"
+			port := 1000 + id
+			conf = append(conf, &cluster_table_conf.BackendConf{Name: &bn, Addr: &addr, Port: &port, Weight: &w})
+		}
+		backs[name] = conf
+	}
+	bal := bal_gslb.NewBalanceGslb("cluster")
+	bal.Init(gc)
+	bal.BackendInit(backs)
+	st := cluster_conf.ClientIpOnly
+	hdr := ""
+	sticky := modeI == 2
+	mode := cluster_conf.BalanceModeWrr
+	if modeI == 1 {
+		mode = cluster_conf.BalanceModeWlc
+	}
+	bal.SetGslbBasic(cluster_conf.GslbBasicConf{CrossRetry: &cross, RetryMax: &rmax,
+		HashConf: &cluster_conf.HashConf{HashStrategy: &st, HashHeader: &hdr, SessionSticky: &sticky}, BalanceMode: &mode})
+	find := func(sub string, id int) *backend.BfeBackend {
+		for _, b := range bal_gslb.VerifC04Backends(bal)[sub] {
+			if b.Port-1000 == id {
+				return b
+			}
+		}
+		return nil
+	}
+	out := hv.L{}
+	for _, ov := range hv.AsList(top[3]) {
+		op := hv.AsList(ov)
+		switch hv.AsInt(op[0]) {
+		case 0:
+			key := hv.AsBytes(op[3])
+			if hv.String(op[2]) != hv.String(hv.U(murmur3.Sum64(key))) {
+				return hv.Err(7)
+			}
+			req := &bfe_basic.Request{HttpRequest: &bfe_http.Request{Header: make(bfe_http.Header), RequestURI: "/"},
+				Stat: &bfe_basic.RequestStat{}}
+			req.ClientAddr = &net.TCPAddr{IP: net.IP(key), Port: 1}
+			req.RetryTime = int(hv.AsInt(op[1]))
+			b, err := bal.Balance(req)
+			bid := -1
+			if b != nil {
+				bid = b.Port - 1000
+				if b.SubCluster != req.Backend.SubclusterName {
+					bid = -7
+				}
+			}
+			out = append(out, hv.L{hv.I(errCode(err)), hv.S(req.Backend.SubclusterName), hv.I(bid), hv.I(req.RetryTime),
+				hv.Bool(req.Stat.IsCrossCluster), hv.I(errCode(req.ErrCode))})
+		case 1:
+			if b := find(hv.AsStr(op[1]), int(hv.AsInt(op[2]))); b != nil {
+				b.SetAvail(hv.AsBool(op[3]))
+			}
+			out = append(out, hv.L{})
+		case 2:
+			if b := find(hv.AsStr(op[1]), int(hv.AsInt(op[2]))); b != nil {
+				backend.VerifC04SetConnNum(b, int(hv.AsInt(op[3])))
+			}
+			out = append(out, hv.L{})
+		default:
+			panic("bad op")
+		}
+	}
+	return out
+}
+
+// WLC (2/3) or sticky (1/3) cluster whose requests mostly end in the cross-cluster branch: the hashed sub-cluster
+// is entirely down or the retry count is past retryMax; connection counts with distinct ratios and ties
+func genG(r *hv.Rng) (string, hv.Val) {
+	mode := 1
+	class := "gslb-wlc"
+	if r.Chance(1, 3) {
+		mode = 2
+		class = "gslb-sticky"
+	}
+	rmax := r.Range(0, 2)
+	cross := r.Range(1, 2)
+	names := []string{"bj", "gz", "sh", "nj"}
+	ns := r.Range(2, 3)
+	subs := hv.L{}
+	ops := hv.L{}
+	type sb struct {
+		name string
+		ids  []int
+		ws   []int
+	}
+	var gs []sb
+	for j := 0; j < ns; j++ {
+		w := r.Range(1, 4)
+		if j > 0 && r.Chance(1, 4) {
+			w = 0 // never a first choice, but usable for the cross retry
+		}
+		nb := r.Range(2, 5)
+		bl := hv.L{}
+		g := sb{name: names[j]}
+		for k := 0; k < nb; k++ {
+			bw := r.Range(1, 4)
+			if r.Chance(1, 8) {
+				bw = 0
+			}
+			bl = append(bl, hv.L{hv.I(k), hv.I(bw)})
+			g.ids = append(g.ids, k)
+			g.ws = append(g.ws, bw)
+		}
+		subs = append(subs, hv.L{hv.S(names[j]), hv.I(w), bl})
+		gs = append(gs, g)
+	}
+	// connection counts
+	for _, g := range gs {
+		q := r.Range(0, 3)
+		for k, id := range g.ids {
+			w := g.ws[k]
+			if w <= 0 {
+				w = 1
+			}
+			c := 0
+			switch r.Intn(3) {
+			case 0:
+				c = q * w // tie
+			case 1:
+				c = q*w + r.Range(0, 2)
+			default:
+				c = r.Intn(10)
+			}
+			ops = append(ops, hv.L{hv.I(2), hv.S(g.name), hv.I(id), hv.I(c)})
+		}
+	}
+	// make one or all-but-one sub-cluster completely unavailable
+	downAll := r.Intn(ns)
+	for j, g := range gs {
+		if j == downAll || r.Chance(1, 4) {
+			for _, id := range g.ids {
+				ops = append(ops, hv.L{hv.I(1), hv.S(g.name), hv.I(id), hv.I(0)})
+			}
+		}
+	}
+	calls := r.Range(3, 10)
+	for c := 0; c < calls; c++ {
+		retry := 0
+		if r.Chance(1, 3) {
+			retry = rmax + 1 // past retryMax: straight to the cross-cluster branch
+		}
+		key := r.Bytes(16)
+		ops = append(ops, hv.L{hv.I(0), hv.I(retry), hv.U(murmur3.Sum64(key)), hv.B(key)})
+		if r.Chance(1, 3) {
+			g := gs[r.Intn(len(gs))]
+			k := r.Intn(len(g.ids))
+			ops = append(ops, hv.L{hv.I(2), hv.S(g.name), hv.I(g.ids[k]), hv.I(r.Intn(12))})
+		}
+	}
+	return class, hv.L{hv.I(8), hv.L{hv.I(mode), hv.I(rmax), hv.I(cross)}, subs, ops}
+}
 
 func mkConf(v hv.Val) cluster_table_conf.SubClusterBackend {
 	var conf cluster_table_conf.SubClusterBackend
@@ -30,6 +225,9 @@ func mkConf(v hv.Val) cluster_table_conf.SubClusterBackend {
 
 func impl(in hv.Val) hv.Val {
 	top := hv.AsList(in)
+	if len(top) == 4 {
+		return implG(top)
+	}
 	rand.Seed(hv.AsInt(top[2]))
 	brr := bal_slb.NewBalanceRR("sub")
 	brr.Init(mkConf(top[0]))
@@ -70,6 +268,9 @@ func impl(in hv.Val) hv.Val {
 }
 
 func gen(r *hv.Rng, i int, tier string) (string, hv.Val) {
+	if r.Chance(1, 4) {
+		return genG(r)
+	}
 	n := r.Range(1, 6)
 	if r.Chance(1, 12) {
 		n = r.Range(7, 10)
